@@ -37,22 +37,27 @@ CHECKS["C08"] = dict(
 
 CHECKS["C09"] = dict(
    text="Theorems over ALL server scripts (any byte stream the server sends, cut anywhere = disconnect/stall, any failing write) about the Lean model smtpRun of "
-        "qmail-remote.c smtp()/smtpcode()/quit()/dropped(): the message report has exactly the class the rules require (first decisive event: greeting!=220/HELO!=250 -> Z; "
-        "MAIL/DATA/final-dot >=500 -> D, 400..499 -> Z; all RCPT refused -> D; lost connection -> Z, flagged 'Possible duplicate!' between the final flush and the reply to the dot), "
-        "K only if every phase was accepted and the whole message and QUIT were sent, per-recipient r/s/h reports are the classes of their own RCPT replies in argument order, "
-        "commands reach the server in argument order; smtpcode() = line-based multi-line reading on well-formed streams, code = decimal value; and about the model rreport of "
-        "qmail-rspawn.c report(): K relayed only for exit 0/no crash/first report not h,s/first K-Z-D report K, crash/111 -> Z, other exits -> D, never an upgrade; composed end to end "
-        "(relayed K => server accepted recipient and message). Tied to the current source by running the real smtp() against a scripted socket (every assignment of 13 reply kinds to the "
-        "5+n phases, every failing write, every short byte string as a reply, random conversations) and the real report() on every output over {r,h,s,K,Z,D,x,NUL} up to length 6/8 x exit "
-        "statuses, and the real main() from the DNS result on (every lookup result x every list of <=3 addresses: MX preference vs. this host, tcpto skip, connect ok/refused/timeout -> "
-        "temp_noconn Z, never K before a connection, first eligible connecting address used); ~1M/23M cases, comparing report bytes, wire bytes, exit status, relayed line and tcpto_err calls; "
-        "the property predicates are evaluated on the implementation's output.",
+        "qmail-remote.c smtp()/smtpcode()/quit()/dropped(), proved by case analysis over the model's control flow against a separately written rule table `expect` that is STRICT "
+        "about the final QUIT: over the replies and codes as delimited by smtpcode() (first line's code of a multi-line reply) the message report has exactly the class the rules require "
+        "(first decisive event: greeting!=220/HELO!=250 -> Z; MAIL/DATA/final-dot >=500 -> D, 400..499 -> Z; all RCPT refused -> D; lost connection -> Z, flagged 'Possible duplicate!' "
+        "between the final flush and the reply to the dot) for every script (C09_classes); a failing QUIT write changes neither the recipient reports nor the message report, only QUIT is "
+        "missing on the wire (C09_quit_corner; since /repo 7dc98ec, the pre-fix code is a mutant the check catches); K only if every phase was accepted, no write up to "
+        "the final flush failed and the whole message (and QUIT, unless its write fails) was sent, per-recipient r/s/h reports are the classes of their own RCPT replies in argument order, commands reach the server in "
+        "argument order. Independent of the model's own framing: smtpcode() = line-based multi-line reading on well-formed streams, code = decimal value, hence the classes against the "
+        "line-based codes (C09_classes_wellformed). About the model rreport of qmail-rspawn.c report(): scan loop = first terminated K/Z/D record, K relayed only for exit 0/no crash/first "
+        "report not h,s/first K-Z-D report K, crash/111 -> Z, other exits -> D, never an upgrade, relayed text = bytes of the child's output only; composed end to end (relayed K => rules say K "
+        "and the recipient was accepted). The C09_rule_* theorems only spell out the rule table. The models are tied to the current source by differential replay only: the real smtp() against "
+        "a scripted socket (every assignment of 13 reply kinds to the 5+n phases, every failing write, message sizes around the 1024-byte output buffer, every short byte string as a reply, "
+        "random conversations), the real report() on every output over {r,h,s,K,Z,D,x,NUL} up to length 6/8 x exit statuses, and the real main() from the DNS result on (every lookup result x "
+        "every list of <=3 addresses: MX preference vs. this host, tcpto skip, connect ok/refused/timeout -> temp_noconn Z, never K before a connection, first eligible connecting address used); "
+        "~1M/23M cases, comparing report bytes, wire bytes, exit status, relayed line and tcpto_err calls. The strict property predicates are evaluated on the implementation's output; whether a "
+        "failing write inside blast() is critical is decided from the bytes of that write, not from the client's flagcritical.",
    note=NOTE_COMMON + "Modelled, not verified: select/read/write inside timeoutread/timeoutwrite (scripted socket: EOF and timeout both end in dropped()); substdio buffering "
-        "(several chunkings; position of buffer-full flushes observed, not modelled); control files, smtproutes, the resolver, ipme, tcpto's file and connect() are scripted answers to the real main(); "
-        "spawn.c's collection loop; 64-bit unsigned long. The model transcribes that a failing QUIT write turns any decided verdict into Z 'connection died' (notes/C09.md finding 1).",
-   technique="Lean 4 proof (control-flow model = declarative class rules; automaton = line spec; scan loop = first-record spec; composition) + exhaustive differential correspondence with the C code",
+        "(several chunkings; position of buffer-full flushes not modelled: whether a failing blast() write came after 'flagcritical = 1' / carries the end of the message is computed from its bytes, never read from the client); control files, smtproutes, the resolver, "
+        "ipme, tcpto's file and connect() are scripted answers to the real main(); spawn.c's collection loop; 64-bit unsigned long. Finding C09-quit-write-failure (a failing QUIT write "
+        "replaced a decided K/D by Z 'connection died') was found by this check, fixed in /repo 7dc98ec (notes/C09-fix-2.diff); model, theorems and the strict oracle follow the repaired code.",
+   technique="Lean 4 proof (control-flow model vs. declarative class rules; automaton = line spec; scan loop = first-record spec; composition) + exhaustive differential correspondence with the C code",
    design="DESIGN.md §2 C09")
-
 CHECKS["C10"] = dict(
    text="30 theorems about the Lean model of qmail-send's routing, over ALL configurations, recipient byte strings, todo files and event traces. Function-level refinement "
         "(no monitor involved): rewrite() (default host, percent-hack loop, locals, virtualdomains scan) equals the documented rule set routeSpec for every configuration without a "
@@ -368,3 +373,27 @@ CHECKS["C06"] = dict(
   note=NOTE_COMMON + "Modelled, not verified: the substdio model is value-level (buffers are byte lists; array placement tied by correspondence here and in C20); the peer's line splitting (RFC 5321: lines end at CR LF only - with a peer that also breaks lines at bare CR the CR CR quirk would matter: 'CR CR . LF' is sent as 'CRLF CR . CRLF', see notes/C06.md observation and candidate repair). The 'package's own server' half of C06_decode is about the model dblast; its tie to qmail-smtpd.c is check C05 (seed C06-m2 is detected by C05, not C06). The full-session leg H2 (real smtp() against a scripted server, DATA payload = this encoder) is C09's harness (oracle wireOrderQ with encodedBody = rfull).",
   technique="Lean 4 proof (automaton simulation + line-shape invariant + prefix closure; Mealy machine composed with the substdio input and output stream laws for every read/write script) + exhaustive differential correspondence with the C code under scripted read and write chunkings",
   design="DESIGN.md §2 C06")
+
+CHECKS["C03"] = dict(
+   text="Theorems about EVERY event sequence accepted by the Lean monitor of qmail-send + qmail-clean's observable protocol (every filesystem-mutating call, delivery command, byte of every "
+        "spawner report, bounce injection, crash, restart; unbounded messages, recipients, histories). Inductive consequences of the accounting invariant (MInv, preserved by all 27 event kinds): in every "
+        "reachable state every accepted recipient is still queued (unmarked record, info/<m> and mess/<m> present), reported delivered, has its paragraph in a pending bounce/<m> or in a bounce file whose "
+        "injection succeeded, or falls under one of the two documented exemptions PER RECORD - its own paragraph was in the bounce file of a #@[] message when that was discarded (only possible when the "
+        "accepted sender is #@[]: C03_dropped_only_doublebounce), or in bounce/<m> when a crash damaged the file (C03_accounted; a never-attempted recipient is never exempt); a message loses info/<m> only "
+        "when everyone is accounted for (C03_finished, C03_info_last); a successful injection has the envelope bounceEnvelope of the sender qmail-queue ACCEPTED the message with, never for #@[] "
+        "(C03_bounce_to_sender, via the invariant info/<m> = F sender NUL); a D mark is written only after a K report or after the bounce paragraph of a D/expired-Z report (C03_flip); channel files are "
+        "unlinked only when every record is finished (C03_unlink). About the report reader itself, for every state: only K finishes a recipient at report time and only D / Z-past-lifetime of an outstanding "
+        "in-range delivery schedules a bounce paragraph (C03_report_other, C03_note_origin). Guard readbacks of the monitor, tied to the code only by trace replay: a paragraph consumes such a scheduled "
+        "note (C03_paragraph_needs_report), bounce/<m> is unlinked only after a last successful injection or for an accepted sender #@[] (C03_bounce_removed; WHAT was injected last is C14's daemon layer). "
+        "Tied to the code by replaying the traces of the real qmail-send and qmail-clean mains under an in-memory POSIX simulator (scripted spawners, ~4900/130000 seeded histories: signals, single failing "
+        "calls incl. a sweep over every call of qmail-send that touches info/local/remote/bounce/todo and every unlink of qmail-clean in slot-reusing multi-message histories, process/machine crashes, "
+        "restarts after crashes and after clean stops at every interesting select, spawner limit bytes and concurrency over 0..255 with up to 280 recipients, withheld reports, expired messages) through "
+        "the monitor (after a process crash bounce/<m> may differ from the model only by an interrupted addbounce; no file may vanish), and by an independent accounting oracle on each concrete run, keyed by "
+        "RECORD (message, channel, byte offset, generation): K read for that record, or still T at that offset, or in todo/<m>, or its paragraph in bounce/<m> with info/<m>, or its paragraph header in the "
+        "text of a bounce of THAT message queued with the envelope of the accepted sender (any other envelope is itself a violation), or exempt because its own paragraph was discarded with the file of a "
+        "#@[] message or was in the file before a machine crash and not after; plus: no bounce paragraph without a D report or a Z read while clock > birth + lifetime, no completion mark for a record that "
+        "has neither a K nor its paragraph.",
+   note=_DAEMON_NOTE + " Known monitor imprecisions (not exercised by the harness configuration): the #@[] test uses the unstripped sender (VERP '#@[]-@[]'), the paragraph header uses the channel-file "
+        "address (stripvdomprepend), crashBounce exempts all paragraphs of a damaged file although a half-lost file may keep early ones (the observer is exact per paragraph).",
+   technique="Lean 4 proof (inductive accounting invariant over a protocol monitor, closed under crash/restart events) + trace-replay correspondence with the real daemon under a simulated libc",
+   design="DESIGN.md §2 C03/C04, Appendix A")
